@@ -41,6 +41,16 @@ checks = {
    text=WHOLE + "decided are the parser mechanisms that give the ECMAScript tree: all pairwise orderings/ties of binding powers vs the reference; strict comparison in the climbing loop; left-associative operators parse their right operand at their own token's level read before advancing, assignments below their level; every keyword has a consumer and every tested token is producible; the separator check accepts only on the four documented conditions; no return value after a line break and no postfix ++/-- after a line break (the two defects this rule found are repaired by fix: commits), and the loop has no other statement cut. Acceptance of every subset program and full grammar conformance are not decided.",
    ref="DESIGN.md §3 C02",
    note="Trusted: the 11-tier reference transcribed from ECMA-262's expression grammar (in rules_tables.go with one comment per tier); go/types, go/ssa."),
+ "C04": dict(
+   technique="SSA shape analysis of the three wrapper closure pairs (resolved through captured cells), loop-direction recognition, who-may-reference rule for the base functions, dominance (skipper before chain), save/restore typestate around the interceptor call",
+   text=WHOLE + "decided is the interceptor wiring: each wrapper calls its interceptor once with its own argument and a next that calls the previously stored function once with the same arguments, results unchanged; constructor applies statement/expression interceptors in descending order over append-only builder slices (first installed runs first); base functions are referenced only as initial field values so every recursion goes through the chain; one lexer call per parser advance and one chain call per lexer call; trivia is skipped before the chain and never by the base token function; the requested binding power is saved, set to the wrapper's own precedence and restored on every exit, and ParseRemainingExpression passes it unmodified. Equality of results with and without interceptors is not compared.",
+   ref="DESIGN.md §3 C04",
+   note="Trusted: go/ssa closure/cell representation; single-store cell resolution. User interceptors are outside the program and assumed pass-through/re-entrant as the property states."),
+ "C05": dict(
+   technique="sibling cross-check of SSA operand-parsing summaries (registered closures vs built-in methods); set equality of bookkeeping seeds vs parser tables; path rules for refusal/allocation; def-use flow of the level",
+   text=WHOLE + "decided is that registered operators are the same mechanism as built-ins and the bookkeeping is exact: registered infix/prefix closures have the operand-parsing summary of the built-in binary/unary methods (own level read before advancing / constant unary level, one advance, through the interceptable expression function); registered postfix stores the call level and consumes nothing; the level is stored and passed unchanged into the parser's own table; the three duplicate sets equal the parser's prefix keys / infix keys / postfix entries and binding-power keys equal infix keys; refusal paths are write-free and success paths both record and mark; the token-id allocator is single-writer, memoised, pre-increment. Tree shapes against every neighbour are not computed.",
+   ref="DESIGN.md §3 C05",
+   note="Trusted: go/types, go/ssa; NewBuilder seeds recognised as map literals or a range over the package-level binding-power table (other idioms fail closed)."),
 }
 na_pending = "rule set designed in DESIGN.md §3 but not yet armed in xjscheck; not claimed until it is silent on the unchanged tree and shown to fire on seeded variants"
 all_ids = ["C%02d" % i for i in range(1, 17)]
